@@ -1526,6 +1526,51 @@ theorem letContent_ne (p : Nat) (name : Bytes) (body : Block) (ih : ∀ buf', Bl
   simp only [refCmd]
   exact out_bind_not_val (ih (sc.genname name).1 fuel _ rbv env _ [] hrb hs' hg' hrel1 (find_setLocal_eq _ _ _) hx)
 
+/-! ### css, debugger -/
+
+theorem css_none_ne (p : Nat) (suffix : Bytes) : CmdNe F G R ae buf (.css p none suffix) := by
+  intro fuel sc r env jenv out h hs hg hrel hb hx
+  simp only [toCmd, Option.some.injEq] at h; subst h
+  rw [execStmts_one] at hx
+  simp only [execStmt] at hx
+  exact absurd hx (appendTo_ne_error hb _)
+
+theorem css_some_ne (p : Nat) (e : Expr) (suffix : Bytes) : CmdNe F G R ae buf (.css p (some e) suffix) := by
+  intro fuel sc r env jenv out h hs hg hrel hb hx x hx'
+  simp only [toCmd] at h
+  split at h
+  · rename_i j hj
+    simp only [Option.some.injEq] at h; subst h
+    simp only [refCmd] at hx'
+    obtain ⟨v, hv, _⟩ := out_bind_val hx'
+    simp only [execStmts] at hx
+    rcases sres_bind_error hx with hx1 | ⟨e1, hx1, hx2⟩
+    · simp only [execStmt] at hx1
+      rcases withVal_error hx1 with hve | ⟨jv, hjv, hx1⟩
+      · exact expr_no_throw sc env jenv hrel e j hj hve v hv
+      · cases hs' : toStr? jv with
+        | none => simp [hs'] at hx1
+        | some s =>
+          simp only [hs'] at hx1
+          exact appendTo_ne_error hb _ hx1
+    · simp only [execStmt] at hx1
+      obtain ⟨jv, hjv, hx1⟩ := withVal_ok hx1
+      cases hs' : toStr? jv with
+      | none => simp [hs'] at hx1
+      | some s =>
+        simp only [hs'] at hx1
+        obtain ⟨s1, _, rfl⟩ := appendTo_ok hb hx1
+        rw [execStmts_one] at hx2
+        simp only [execStmt] at hx2
+        exact appendTo_ne_error (bufIs_setBuf _ _ _) _ hx2
+  · cases h
+
+theorem debugger_ne (p : Nat) : CmdNe F G R ae buf (.debugger p) := by
+  intro fuel sc r env jenv out h hs hg hrel hb hx
+  simp only [toCmd, Option.some.injEq] at h; subst h
+  rw [execStmts_one] at hx
+  simp [execStmt] at hx
+
 /-! ### msg (no bundle) -/
 
 def PartsNe (ps : MsgParts) : Prop :=
@@ -1864,8 +1909,9 @@ mutual
       forc_some_ne F G R ae buf p v list body ie (body_ok' F G R ae hG body buf) (body_ne' body buf) (block_ne' ie buf)
     | .letContent p name body, buf => letContent_ne F G R ae buf p name body (fun b' => block_ne' body b')
     | .msg p id m d bp body, buf => msg_ne F G R ae buf p id m d bp body (parts_ne body buf)
-    | .css .., _ => fun _ _ _ _ _ _ h => by simp [toCmd] at h
-    | .debugger .., _ => fun _ _ _ _ _ _ h => by simp [toCmd] at h
+    | .css p none suffix, buf => css_none_ne F G R ae buf p suffix
+    | .css p (some e) suffix, buf => css_some_ne F G R ae buf p e suffix
+    | .debugger p, buf => debugger_ne F G R ae buf p
     | .log .., _ => fun _ _ _ _ _ _ h => by simp [toCmd] at h
     | .call p name allData data params, buf =>
       call_ne F G R ae buf hGe p name allData data params (params_ok F G R ae hG params) (params_ne params)
